@@ -123,8 +123,11 @@ def encode(fmt, bank, rng, enc, v4=False):
     if fmt == 'discobrackets':
         return codec.discobrackets_encode(
             bank, rng=rng if rng.random() < 0.5 else None)
+    # the sentence number is the last number of the id
     return codec.tigerxml_encode(bank, rng if rng.random() < 0.5 else None,
-                                 encoding=enc)
+                                 encoding=enc,
+                                 sid_format=rng.choice(['s%d', 's%d', '%d',
+                                                        'tb3_s%d', 'c7.%d']))
 
 
 def decode(fmt, data, enc, opts):
@@ -422,7 +425,9 @@ def run_dir(ctx, case, rng):
             with io.open(os.path.join(d, name), 'w', encoding='utf-8') as f:
                 f.write(text)
         names.append(name)
-    rc, err = convert(ctx, d, os.path.join(d, 'ignored'), sfmt, dfmt)
+    sopts = tuple(case.get('sopts') or ('quiet',))
+    rc, err = convert(ctx, d, os.path.join(d, 'ignored'), sfmt, dfmt,
+                      sopts=sopts)
     if rc != 0:
         raise Fail('directory-mode-exit-status', common.tail(err, 300))
     listing = sorted(os.listdir(d))
@@ -447,6 +452,21 @@ def run_dir(ctx, case, rng):
         if have != want:
             raise Fail('directory-mode-content', '%s: %s'
                        % (name, first_diff(have, want)))
+        # every file is converted as if it were the only one
+        alone = ctx.path('.alone')
+        rc, err = convert(ctx, os.path.join(d, name), alone, sfmt, dfmt,
+                          sopts=sopts)
+        if rc != 0:
+            raise Fail('directory-mode-single-file-exit-status',
+                       common.tail(err, 300))
+        if open(alone, 'rb').read() != data:
+            raise Fail('directory-mode-differs-from-single-file',
+                       '%s converted inside the directory (reader options %r) '
+                       'differs from the same file converted alone: %r vs %r'
+                       % (name, sopts, data[:120],
+                          open(alone, 'rb').read()[:120]))
+    if len(sopts) > 1:
+        ctx.stratum('directory source with a reader option')
     ctx.stratum('directory source')
     if gz:
         ctx.stratum('directory of gzip sources')
@@ -824,6 +844,11 @@ def shard(ctx):
                          for _ in range(rng.randint(1, 4))]
         case['gz'] = rng.random() < 0.5
         case['bank'] = case['banks'][0]
+        if a in ('brackets', 'discobrackets') and rng.random() < 0.6:
+            case['sopts'] = ['quiet', 'brackets_firstid:%d'
+                             % rng.choice([0, 7, 100])]
+        elif a in ('export', 'tigerxml') and rng.random() < 0.3:
+            case['sopts'] = ['quiet', 'continuous']
         run_case(ctx, case)
 
 
